@@ -130,12 +130,12 @@ class Checker:
         return None
 
 
-def traffic(r, calls, arc, mode, peer, ask_no_ack_ok=True):
+def traffic(r, calls, arc, mode, peer, ask_no_ack_ok=True, always_ack=False):
     """calls: list of ('send', force, send_only, fates) | ('resend', send_only, fates)"""
     ops = []
     n = 0
     for c in calls:
-        if mode == "ackpl" and peer and r.random() < 0.8:
+        if mode == "ackpl" and peer and (always_ack or r.random() < 0.8):
             ops += [("select", 1), ("load_ack", b"ack%d" % n, 1)]
         ops += [("select", 0), ("oracle", c[-1])]
         if c[0] == "send":
@@ -165,6 +165,17 @@ def run(rep, model, tier, seed):
                                                                ("resend", True, "D")], arc, "aa", True)
                 cases.append((ops, meta))
     rep.exhaustive.append("all %d loss patterns for arc<=2 x force_retry<=1" % len(cases))
+    # ACK payloads: every history of 3 (thorough: 4) calls over successful / failed / retried send() and resend() with
+    # send_only on and off -- what a call returns must be the ACK payload attached to *its* packet
+    alphabet = [("send", 0, True, False, "D"), ("send", 0, True, False, "PP"), ("send", 0, False, False, "D"),
+                ("send", 0, False, False, "PP"), ("send", 0, True, False, "AD"), ("resend", True, "D"), ("resend", False, "D")]
+    depth = 3 if tier == "quick" else 4
+    nack = 0
+    for calls in itertools.product(alphabet, repeat=depth):
+        meta = {"mode": "ackpl", "peer": True, "arc": 1}
+        cases.append((setup(1, 250, "ackpl", True) + traffic(r, list(calls), 1, "ackpl", True, always_ack=True), meta))
+        nack += 1
+    rep.exhaustive.append("all %d histories of %d calls over %d kinds of call with ACK payloads" % (nack, depth, len(alphabet)))
     nrand = 250 if tier == "quick" else 6000
     for _ in range(nrand):
         arc = r.choice([0, 1, 2, 3, 5, 15])
